@@ -12,19 +12,19 @@ from common import (REPLAY_DIR, VERIF, Inconclusive, Scratch, load_known_finding
 VT = "python3-vt"
 
 FAMILIES_OF = {
-    "C01": ["plain", "full", "wide", "hints", "hard"],
-    "C02": ["plain", "full", "wide", "hints", "hard"],
-    "C03": ["plain", "full", "wide", "hints", "hard"],
-    "C04": ["plain", "full", "wide", "hints", "soft", "reuse"],
-    "C05": ["plain", "full", "hints", "soft", "hard"],
-    "C07": ["plain", "full", "wide", "hard"],
-    "C08": ["plain", "full", "wide", "hard"],
+    "C01": ["plain", "full", "wide", "hints", "hard", "deep", "lazycon"],
+    "C02": ["plain", "full", "wide", "hints", "hard", "deep", "lazycon"],
+    "C03": ["plain", "full", "wide", "hints", "hard", "deep", "lazycon"],
+    "C04": ["plain", "full", "wide", "hints", "soft", "reuse", "deep", "lazycon"],
+    "C05": ["plain", "full", "hints", "soft", "hard", "deep", "lazycon"],
+    "C07": ["plain", "full", "wide", "hard", "deep", "lazycon"],
+    "C08": ["plain", "full", "wide", "hard", "deep", "lazycon"],
     "C13": ["reuse"],
     "C14": ["soft"],
-    "C15": ["wide", "full"],
+    "C15": ["wide", "full", "deep", "lazycon"],
     "C16": ["snapshot"],
 }
-SIZES = {"quick": 150, "thorough": 4000}
+SIZES = {"quick": 400, "thorough": 5000}
 
 DUMP_ATTACH = ('\n#[cfg(verif_cert)]\n#[path = "%s"]\nmod verif_cert;\n')
 VARMAP_ACCESSOR = ('\n#[cfg(verif_cert)]\nimpl VariableMap {\n    pub(crate) fn verif_next_id(&self) -> usize {\n'
